@@ -121,6 +121,13 @@ def run(ctx, rep):
     off_map = [m_ for m_ in dh['members'] if m_['name'] == 'split_map'][0]
     off_size = [m_ for m_ in dsp['members'] if m_['name'] == 'size'][0]
     nsplit = off_map['bits'] // 8 // dsp['size']
+    dst_ = P.distructs.get('stat')
+    off_st = None
+    try:
+        off_st = [m_ for m_ in dsp['members'] if m_['name'] == 'st'][0]['off'] + [m_ for m_ in dst_['members'] if m_['name'] == 'st_size'][0]['off']
+    except Exception:
+        pass
+    off_valid = ([m_['off'] for m_ in dsp['members'] if m_['name'] == 'valid_size'] or [None])[0]
     bad = None
     nev = 0
     import itertools as _it
@@ -132,6 +139,13 @@ def run(ctx, rep):
                 m_.mem[(hp.reg, off_mac['off'])] = (mac, off_mac['bits'] // 8)
                 for k_, sz in enumerate(sizes):
                     m_.mem[(hp.reg, off_map['off'] + k_ * dsp['size'] + off_size['off'])] = (sz, off_size['bits'] // 8)
+                    # the answer depends on the RECORDED sizes only: every other integer of the split handle (the size found on
+                    # disk, the valid size, the descriptor) is given the opposite emptiness, so that a predicate reading one of
+                    # them instead answers wrongly somewhere in the domain
+                    if off_st is not None:
+                        m_.mem[(hp.reg, off_map['off'] + k_ * dsp['size'] + off_st)] = (0 if sz else 4096, 8)
+                    if off_valid is not None:
+                        m_.mem[(hp.reg, off_map['off'] + k_ * dsp['size'] + off_valid)] = (0 if sz else 4096, 8)
                 try:
                     r_ = K.run_function(m_, 'parity_split_is_fixed', [hp, s_])
                 except (K.KernelViolation, K.Unsupported) as e_:
